@@ -122,3 +122,73 @@ def pchip_evaluation(ctx) -> None:
     ctx.ob("PCHIP-eval", "interval index", g.loc(), oki,
            "i = clamp(searchsorted(x, xq, right=True) − 1, 0, n − 2)" if oki else
            "PCHIP1D._interval_index no longer returns clamp(searchsorted(x, xq, right=True) − 1, 0, n − 2)")
+
+
+BUILDERS = [("emu_mps.mpo.MPO._from_operator_repr", "MPO"),
+            ("emu_sv.dense_operator.DenseOperator._from_operator_repr", "DenseOperator"),
+            ("emu_sv.sparse_operator.SparseOperator._from_operator_repr", "SparseOperator")]
+
+
+def symbolic_operator_builder(ctx) -> None:
+    """The nested helper of _from_operator_repr that turns a symbolic single-site operator {symbol: weight} into a tensor:
+    a tensor is returned as it is; a dictionary gives zeros + Σ weight·tensor(symbol) over *its own* items — every
+    returning path is one of these (a value fetched from anywhere else, e.g. a cache keyed on the symbols only, does not
+    carry the weights of this operator)."""
+    from ..algebra import monomials
+    prog = ctx.prog
+    for outer_q, owner in BUILDERS:
+        nested = [f for q, f in prog.funcs.items() if q.startswith(outer_q + ".<locals>.")]
+        ctx.require(len(nested) == 1, f"TABLES-build: {len(nested)} nested builders in {owner}._from_operator_repr")
+        f = nested[0]
+        par = ("param", f.qualname, f.params[0])
+        it = Interp(prog, None, inline=lambda c, r, d: False, loop_iters=(0, 1))
+        bad = []
+        kinds = set()
+        for p in it.run(f):
+            if p.status != "return":
+                continue
+            r = strip_typed(p.retval)
+            is_tensor = None
+            for c, t in p.cond_log:
+                c0 = strip_typed(c)
+                if c0[0] == "call" and c0[1] == "isinstance" and strip_typed(c0[2][0]) == par:
+                    is_tensor = t
+            if is_tensor is True:
+                if r == par:
+                    kinds.add("tensor")
+                else:
+                    bad.append(f"a tensor argument is returned as {show(r)[:50]}")
+                continue
+            mons = monomials(r)
+            zero = [m for m in mons if len(m) == 1 and strip_typed(_base(m[0]))[0] == "call" and strip_typed(_base(m[0]))[1] == "torch.zeros"]
+            terms = [m for m in mons if m not in zero]
+            if len(zero) == 1 and abs(mons[zero[0]] - 1) < 1e-12 and not terms:
+                kinds.add("empty")
+                continue
+            ok = len(zero) == 1 and abs(mons[zero[0]] - 1) < 1e-12 and len(terms) == 1 and abs(mons[terms[0]] - 1) < 1e-12 and len(terms[0]) == 2
+            if ok:
+                a, b = (strip_typed(x) for x in terms[0])
+                rec, w = (a, b) if a[0] in ("call", "vcall") else (b, a)
+                item_src = lambda t: t[0] == "unpack" and strip_typed(t[1])[0] == "elem" and \
+                    strip_typed(strip_typed(t[1])[1]) == ("mcall", par, "items", (), ())  # noqa: E731
+                wk = item_src(w) and w[2] == 1
+                arg = strip_typed(rec[2][0]) if rec[0] == "call" and rec[2] else (strip_typed(rec[2][0]) if rec[0] == "vcall" and rec[2] else None)
+                self_call = rec[0] in ("call", "vcall") and (f.qualname in show(rec) or f.name in show(rec))
+                key_ok = arg is not None and arg[0] == "sub" and item_src(strip_typed(arg[2])) and strip_typed(arg[2])[2] == 0
+                ok = wk and self_call and key_ok
+            if ok:
+                kinds.add("sum")
+            else:
+                bad.append(f"a symbolic operator is returned as {show(r)[:70]}")
+        good = not bad and kinds == {"tensor", "empty", "sum"}
+        ctx.ob("TABLES-build", f"{owner}|symbolic operators", f.loc(), good,
+               "tensor ↦ itself; {symbol: weight} ↦ zeros + Σ weight · builder(table[symbol]) over its own items" if good else
+               f"{owner}: {(bad or ['paths found: ' + str(sorted(kinds))])[0]} — the tensor built for a symbolic operator does "
+               f"not depend on that operator's weights alone")
+
+
+def _base(t):
+    t = strip_typed(t)
+    while t[0] == "mcall" and t[2] in ("to_sparse_coo", "to", "coalesce", "view"):
+        t = strip_typed(t[1])
+    return t
